@@ -90,6 +90,13 @@ Theorem timestamp_floor_ms : forall sec ns : Z,
   timestamp_spec sec ns * 1000000 <= sec * 1000000000 + ns < (timestamp_spec sec ns + 1) * 1000000.
 Proof. exact C14_proofs.timestamp_floor_ms_lemma. Qed.
 
+(* nested timestamp wrappers, and wrapped metrics that write a timestamp of their own: the OUTERMOST wrapper's time
+   is what is exposed (floored to milliseconds); with no wrapper, what the metric wrote itself *)
+Theorem outermost_timestamp_wins : forall inner layers,
+  Forall (fun t => 0 <= snd t < 1000000000 /\ -9223372036854775808 <= fst t * 1000 /\ fst t * 1000 + 999 < 9223372036854775808) layers ->
+  nested_timestamp inner layers = nested_timestamp_spec inner layers.
+Proof. exact C14_proofs.outermost_timestamp_wins_lemma. Qed.
+
 (* ---- native const histograms ---- *)
 (* validateBucketIndexes accepts exactly when the first index and every gap fit an int32 span offset
    (the wrapping int64 arithmetic of the Go code does not matter for Go ints) *)
